@@ -94,11 +94,15 @@ class ClassicalGate(Box):
             self.name, self.cod, self.dom, self.array, _dagger)
 
     def subs(self, *args):
+        if self.data is None:
+            return self
         data = rsubs(list(self.data.flatten()), *args)
         return ClassicalGate(
             self.name, self.dom, self.cod, data, _dagger=self._dagger)
 
     def lambdify(self, *symbols, **kwargs):
+        if self.data is None:
+            return lambda *xs: self
         from sympy import lambdify
         data = lambdify(symbols, self.data, dict(kwargs, modules=Tensor.np))
         return lambda *xs: ClassicalGate(
